@@ -17,7 +17,29 @@ common.use_repo()
 import hypergraph.cache as hcache  # noqa: E402
 from hypergraph.cache import DiskCache, InMemoryCache  # noqa: E402
 
-TAMPERS = ["payload_flip", "payload_trunc", "payload_type", "payload_del", "hmac_del", "hmac_garbage", "hmac_type", "hmac_nonascii"]
+TAMPERS = ["payload_flip", "payload_trunc", "payload_type", "payload_del", "hmac_del", "hmac_garbage", "hmac_type", "hmac_nonascii",
+           "payload_pickled", "hmac_pickled"]
+
+FIRED: list[str] = []
+
+
+def _fire(tag: str) -> int:
+    FIRED.append(tag)
+    return 0
+
+
+class Tracer:
+    """An object whose DESERIALISATION leaves a trace (what a crafted pickle does with arbitrary code)."""
+
+    def __init__(self, tag: str) -> None:
+        self.tag = tag
+
+    def __reduce__(self) -> tuple:
+        return (_fire, (self.tag,))
+
+
+# for the Lean disk model a row rewritten in the store's own pickle mode is a payload / signature of the wrong type
+MODEL_TAMPER = {"payload_pickled": "payload_type", "hmac_pickled": "hmac_type"}
 
 
 class RecordingCache:
@@ -76,7 +98,7 @@ class C09(Prop):
 
     def cases(self, rng: random.Random, tier: str) -> Iterable[dict]:
         # every dedicated family is visited at least twice per run, whatever the seed; the rest is drawn at random
-        forced = [0.04, 0.11, 0.16, 0.21, 0.245, 0.28, 0.32] * 2
+        forced = [0.04, 0.11, 0.16, 0.21, 0.245, 0.28, 0.32, 0.35, 0.38, 0.41] * 2
         while True:
             r = forced.pop() if forced else rng.random()
             if r < 0.08:
@@ -127,6 +149,32 @@ class C09(Prop):
                 yield {"kind": "runs", "program": [{"name": "g0", "nodes": nodes, "bound": []}],
                        "runs": [{"values": [["x", v]], "runner": rng.choice(["sync", "async"])} for v in seq],
                        "backend": rng.choice(["mem", "lru4", "disk"])}
+                continue
+            if 0.34 <= r < 0.37:
+                # two functions made by ONE factory (identical, retrievable source text) that captured different values: different definitions
+                c1, c2 = rng.sample([0, 1, 2, "a", {"t": [1]}], 2)
+                mk = lambda c: [{"name": "g0", "nodes": [{"name": "na", "kind": "fn", "params": [["x", None]], "dataOuts": ["out"],  # noqa: E731
+                                                          "body": {"b": "closure", "t": "made", "c": c}, "cache": True}], "bound": []}]
+                yield {"kind": "runs2", "programs": [mk(c1), mk(c2)], "values": [["x", rng.randint(0, 3)]],
+                       "backend": rng.choice(["mem", "lru2", "disk"]), "runner": rng.choice(["sync", "async"]), "share": False}
+                continue
+            if 0.40 <= r < 0.43:
+                # a cacheable producer of a LIST and a consumer that grows the list it receives in place, run twice on one cache
+                x = rng.randint(0, 3)
+                nodes = [{"name": "mk", "kind": "fn", "params": [["x", None]], "dataOuts": ["lst"], "body": {"b": "append"}, "cache": True},
+                         {"name": "grow", "kind": "fn", "params": [["lst", None]], "dataOuts": ["n"], "body": {"b": "mutAppend", "t": "grow", "k": 7}}]
+                rng.shuffle(nodes)
+                yield {"kind": "runs", "program": [{"name": "g0", "nodes": nodes, "bound": []}], "mutating": True,
+                       "runs": [{"values": [["x", x]], "runner": rng.choice(["sync", "async"])} for _ in range(rng.randint(2, 3))],
+                       "backend": rng.choice(["mem", "lru2", "disk"])}
+                continue
+            if 0.37 <= r < 0.40:
+                # two definitions without retrievable source that differ only INSIDE a nested code object (a lambda's constant)
+                k1, k2 = rng.sample(range(0, 6), 2)
+                mk = lambda k: [{"name": "g0", "nodes": [{"name": "na", "kind": "fn", "params": [["x", None]], "dataOuts": ["out"],  # noqa: E731
+                                                          "body": {"b": "lam", "t": "lam", "k": k}, "cache": True}], "bound": []}]
+                yield {"kind": "runs2", "programs": [mk(k1), mk(k2)], "values": [["x", rng.randint(0, 3)]],
+                       "backend": rng.choice(["mem", "lru2", "disk"]), "runner": rng.choice(["sync", "async"]), "share": False}
                 continue
             if 0.23 <= r < 0.26:
                 # two DIFFERENT definitions without retrievable source whose bytecode differs only in a referenced name
@@ -320,12 +368,16 @@ class C09(Prop):
                 elif t == "crashSet":
                     raw.set(k, pickle.dumps(s["v"]))          # the first of set()'s two writes only
                 elif t == "get":
-                    before = len(spy.loads_calls)
+                    before = len(spy.loads_calls) + len(FIRED)
                     try:
                         hit, v = dc.get(k)
-                        gets.append({"hit": enc_val(v) if hit else {"miss": 1}, "unpickled": len(spy.loads_calls) > before, "raised": None})
+                        gets.append({"hit": enc_val(v) if hit else {"miss": 1}, "unpickled": len(spy.loads_calls) + len(FIRED) > before, "raised": None})
                     except Exception as e:  # noqa: BLE001
-                        gets.append({"hit": {"miss": 1}, "unpickled": len(spy.loads_calls) > before, "raised": type(e).__name__})
+                        gets.append({"hit": {"miss": 1}, "unpickled": len(spy.loads_calls) + len(FIRED) > before, "raised": type(e).__name__})
+                elif t == "payload_pickled":
+                    raw.set(k, Tracer("payload"))       # the row rewritten in the store's own pickle mode: fetching it would unpickle it
+                elif t == "hmac_pickled":
+                    raw.set(k + ":hmac", Tracer("signature"))
                 elif t == "payload_flip":
                     raw.set(k, bytes([9, 9, 9, 7]))
                 elif t == "payload_trunc":
@@ -382,7 +434,8 @@ class C09(Prop):
             if r["ref"]["status"] == "build-error":
                 return "valid program rejected at construction"
             if impl.differ(r["got"], r["ref"]):
-                return f"run {i} with the shared cache returned {r['got']}, the uncached run returns {r['ref']}"
+                note = " (a node mutated in place a value that the in-memory cache holds by reference)" if case.get("mutating") and case["backend"] != "disk" else ""
+                return f"run {i} with the shared cache returned {r['got']}, the uncached run returns {r['ref']}" + note
             if r["routes_got"] != r["routes_ref"] and False:
                 return f"run {i}: routing decisions differ with the cache"
         shared_fn = case["kind"] == "runs2" or any(n.get("sameFuncAs") for g in case["program"] for n in g["nodes"])   # both nodes log under one id
@@ -412,7 +465,7 @@ class C09(Prop):
 
     def compare(self, case: dict, i: Any, driver: Any) -> str | None:
         if case["kind"] == "disk":
-            m = driver.ask({"op": "disk", "steps": case["steps"]})
+            m = driver.ask({"op": "disk", "steps": [dict(st, t=MODEL_TAMPER.get(st["t"], st["t"])) for st in case["steps"]]})
             ig = [{"hit": g["hit"], "unpickled": g["unpickled"]} for g in i["gets"]]
             if ig != m["gets"]:
                 return f"disk scenario: impl={ig} model={m['gets']}"
@@ -440,6 +493,8 @@ class C09(Prop):
         return {"kind": "runs", "backend": case["backend"], "runs": len(case["runs"]), "hits": min(obs["hits"], 10), "ops": min(len(obs["ops"]), 40) // 10 * 10}
 
     def signature(self, case: dict, obs: Any, why: str) -> str:
+        if "the in-memory cache holds by reference" in why:
+            return "site:InMemoryCache/stores-by-reference"     # one mechanism (known finding C09-F2)
         if "equal arguments pickle to different bytes" in why:
             return "site:compute_cache_key/pickle-memo"      # one call site, one root cause (known finding C09-F1), whatever the program
         return "case:" + canonical_hash(case)
